@@ -287,8 +287,26 @@ func parseAppendRule(x *Ctx, f *ssa.Function) {
 			}
 			quoted := false
 			for _, f := range p.Facts {
-				if f.Pol && f.Atom.Op == "call" && f.Atom.Name == "strings.HasPrefix" && len(f.Atom.Args) == 2 && f.Atom.Args[1].IsConst(`"\""`) && f.Atom.Args[0].Op == "slice" &&
-					p.HasFact("call[strings.HasSuffix]("+f.Atom.Args[0].String()+`,const("\""))`, true) {
+				if !f.Pol {
+					continue
+				}
+				var xs string
+				switch {
+				case f.Atom.Op == "call" && f.Atom.Name == "strings.HasPrefix" && len(f.Atom.Args) == 2 && f.Atom.Args[1].IsConst(`"\""`) && f.Atom.Args[0].Op == "slice":
+					xs = f.Atom.Args[0].String()
+				case f.Atom.Op == "eq":
+					// byte form: X[0] == '"'
+					for k := 0; k < 2; k++ {
+						e, c := f.Atom.Args[k], f.Atom.Args[1-k]
+						if c.IsConst("34") && e.Op == "elem" && e.Args[1].IsConst("0") && e.Args[0].Op == "slice" {
+							xs = e.Args[0].String()
+						}
+					}
+				}
+				if xs == "" {
+					continue
+				}
+				if p.HasFact("call[strings.HasSuffix]("+xs+`,const("\""))`, true) || p.HasFact(eqs(xs+"[sub(len("+xs+"),const(1))]", "const(34)"), true) {
 					quoted = true
 				}
 			}
